@@ -1,6 +1,9 @@
 package main
 
 import (
+	"go/constant"
+	"go/token"
+
 	"golang.org/x/tools/go/ssa"
 )
 
@@ -93,6 +96,72 @@ func callsInNamed(fn *ssa.Function, names ...string) []*CallSite {
 		}
 	}
 	return out
+}
+
+// FactFn classifies a branch: +1 if taking the edge on which cond==val
+// establishes the wanted fact, -1 if it establishes its negation, 0 if unrelated.
+// cond has had leading negations stripped.
+type FactFn func(cond ssa.Value, val bool) int
+
+// guardedBy: instruction site executes only when the fact holds. Recognised forms:
+// (a) an edge establishing the fact dominates the site (if/else, switch case);
+// (b) early exit: an If that dominates the site has an edge establishing the
+// negation whose target cannot reach the site (`if !fact { return }`).
+func guardedBy(site ssa.Instruction, fact FactFn) bool {
+	b := site.Block()
+	for _, cf := range dominatingConds(b) {
+		cond, val := stripNot(cf.Cond, cf.Val)
+		if fact(cond, val) > 0 {
+			return true
+		}
+	}
+	for _, blk := range b.Parent().Blocks {
+		if len(blk.Instrs) == 0 || !(blk == b || blk.Dominates(b)) {
+			continue
+		}
+		iff, ok := blk.Instrs[len(blk.Instrs)-1].(*ssa.If)
+		if !ok || blk == b {
+			continue
+		}
+		for i, val := range []bool{true, false} {
+			cond, v := stripNot(iff.Cond, val)
+			if fact(cond, v) < 0 {
+				neg := blk.Succs[i]
+				pos := blk.Succs[1-i]
+				if neg != b && !reaches(neg, b) && (pos == b || reaches(pos, b)) {
+					return true
+				}
+			}
+		}
+	}
+	return false
+}
+
+// intConst returns the integer value of a constant operand.
+func intConst(v ssa.Value) (int64, bool) {
+	k, ok := v.(*ssa.Const)
+	if !ok || k.Value == nil || k.Value.Kind() != constant.Int {
+		return 0, false
+	}
+	n, ok := constant.Int64Val(k.Value)
+	return n, ok
+}
+
+// eqFact builds a FactFn for "X == Y" style comparisons: match(b) says whether
+// the BinOp compares the wanted things; the fact is equality (want=true) or
+// inequality (want=false).
+func eqFact(match func(b *ssa.BinOp) bool, wantEqual bool) FactFn {
+	return func(cond ssa.Value, val bool) int {
+		b, ok := cond.(*ssa.BinOp)
+		if !ok || (b.Op != token.EQL && b.Op != token.NEQ) || !match(b) {
+			return 0
+		}
+		eq := (b.Op == token.EQL) == val // this edge means "equal"
+		if eq == wantEqual {
+			return 1
+		}
+		return -1
+	}
 }
 
 // reachesExitAvoiding: some path from s reaches a function exit without entering b.
